@@ -176,6 +176,7 @@ def dispatch (op : String) (args : List Sexp) : String :=
   | "dep.generic" => opDep false args
   | "dep.raw" => opDep true args
   | "dep.tetris" => opDep true args
+  | "dep.tetrisraw" => opDep true args
   | "dep.gds" => opDep true args
   | _ => "bad-op"
 
